@@ -57,6 +57,7 @@ import email.parser
 import email.utils
 import os
 import re
+import stat
 import time
 from collections.abc import Generator, Sequence
 from dataclasses import dataclass
@@ -1414,6 +1415,23 @@ def _validate_patch_target(r: "Repo", repo_path: bytes, tree_path: bytes) -> byt
     return fs_path
 
 
+def _remove_symlink_at_target(fs_path: bytes) -> None:
+    """Remove a symlink left at a path that is about to be written.
+
+    ``open(..., "wb")`` follows a symlink in the final component and would
+    clobber whatever it points at, e.g. a file inside ``.git`` for a
+    checked-out ``link -> .git/config``. ``_validate_patch_target`` only
+    vets the leading components. Replace the link with a fresh regular
+    file, as ``build_file_from_blob`` does on checkout.
+    """
+    try:
+        st = os.lstat(fs_path)
+    except FileNotFoundError:
+        return
+    if stat.S_ISLNK(st.st_mode):
+        os.unlink(fs_path)
+
+
 def _apply_rename_or_copy(
     r: "Repo",
     src_path: bytes,
@@ -1503,6 +1521,7 @@ def _apply_rename_or_copy(
     # Write to destination
     if not cached:
         os.makedirs(os.path.dirname(dst_fs_path), exist_ok=True)
+        _remove_symlink_at_target(dst_fs_path)
         with open(dst_fs_path, "wb") as f:
             f.write(content)
         if patch.new_mode is not None:
@@ -1671,6 +1690,7 @@ def apply_patches(
                 # Write binary file
                 if not cached:
                     os.makedirs(os.path.dirname(fs_path), exist_ok=True)
+                    _remove_symlink_at_target(fs_path)
                     with open(fs_path, "wb") as f:
                         f.write(binary_content)
                     if patch.new_mode is not None:
@@ -1837,6 +1857,7 @@ def apply_patches(
             if not cached:
                 # Write to working tree
                 os.makedirs(os.path.dirname(fs_path), exist_ok=True)
+                _remove_symlink_at_target(fs_path)
                 with open(fs_path, "wb") as f:
                     f.write(result_content)
 
